@@ -14,6 +14,7 @@
 //!   proof begin: <text>
 //!   proof end: <text>
 //!   proof after <callee>: <text>              # proof block right after each statement that calls <callee> (last path segment / method name)
+//!   ghost after <callee>: <let ghost ..;>     # proof_decl! right after each statement that calls <callee>
 //!   proof before_loop <N>: <text>            # proof block right before loop N
 //!   closure 0 binder r: Type               # closures are numbered in source order within the fn
 //!   closure 0 requires name: <expr>
@@ -69,9 +70,9 @@ pub struct Shape {
 }
 
 #[derive(Debug, Clone)]
-pub enum ProofAt { AfterCall(String), BeforeLoop(usize) }
+pub enum ProofAt { AfterCall(String), BeforeCall(String), BeforeLoop(usize) }
 #[derive(Debug, Clone)]
-pub struct ProofPoint { pub at: ProofAt, pub text: String }
+pub struct ProofPoint { pub at: ProofAt, pub text: String, pub decl: bool }
 
 #[derive(Debug, Clone, Default)]
 pub struct FnContract {
@@ -212,18 +213,26 @@ pub fn parse_contracts(src: &str) -> Result<Contracts, String> {
             }
             "ghost" => {
                 let (pos, body) = rest.split_once(':').ok_or_else(|| format!("line {}: ghost begin:", ln))?;
-                if pos.trim() != "begin" { return Err(format!("line {}: only `ghost begin:`", ln)); }
-                fc.ghost_begin = Some(body.trim().to_string());
+                if let Some(c) = pos.trim().strip_prefix("before ") {
+                    fc.proof_points.push(ProofPoint { at: ProofAt::BeforeCall(c.trim().to_string()), text: body.trim().to_string(), decl: true });
+                } else if let Some(c) = pos.trim().strip_prefix("after ") {
+                    // ghost declarations (proof_decl!) right after each statement that calls <callee>: in scope for the rest of the block
+                    fc.proof_points.push(ProofPoint { at: ProofAt::AfterCall(c.trim().to_string()), text: body.trim().to_string(), decl: true });
+                } else {
+                    if pos.trim() != "begin" { return Err(format!("line {}: only `ghost begin:` / `ghost after <callee>:`", ln)); }
+                    fc.ghost_begin = Some(body.trim().to_string());
+                }
             }
             "proof" => {
                 let (pos, body) = rest.split_once(':').ok_or_else(|| format!("line {}: proof begin:/end:", ln))?;
                 match pos.trim() {
                     "end" => fc.proof_end = Some(body.trim().to_string()),
                     "begin" => fc.proof_begin = Some(body.trim().to_string()),
-                    o if o.starts_with("after ") => fc.proof_points.push(ProofPoint { at: ProofAt::AfterCall(o[6..].trim().to_string()), text: body.trim().to_string() }),
+                    o if o.starts_with("after ") => fc.proof_points.push(ProofPoint { at: ProofAt::AfterCall(o[6..].trim().to_string()), text: body.trim().to_string(), decl: false }),
+                    o if o.starts_with("before ") => fc.proof_points.push(ProofPoint { at: ProofAt::BeforeCall(o[7..].trim().to_string()), text: body.trim().to_string(), decl: false }),
                     o if o.starts_with("before_loop ") => {
                         let k: usize = o[12..].trim().parse().map_err(|_| format!("line {}: loop ordinal", ln))?;
-                        fc.proof_points.push(ProofPoint { at: ProofAt::BeforeLoop(k), text: body.trim().to_string() })
+                        fc.proof_points.push(ProofPoint { at: ProofAt::BeforeLoop(k), text: body.trim().to_string(), decl: false })
                     }
                     o => return Err(format!("line {}: unknown proof position `{}`", ln, o)),
                 }
